@@ -14,7 +14,7 @@ REQUIRED_THEOREMS = [
     'OpusProps.C01.decodeNative_error_leaves_state', 'OpusProps.C01.decodeApi_ret',
     'OpusProps.C01.plc_chunk_recursion_depth', 'OpusProps.C01.msDecode_ret', 'OpusProps.C01.msDecodeFull_ret',
     'OpusProps.C01.msDecode_writes', 'OpusProps.C01.msDecode_refines', 'OpusProps.C01.int_ranges',
-    'OpusProps.C01.nativeRet_depends_on_parse',
+    'OpusProps.C01.nativeRet_depends_on_parse', 'OpusProps.C01.decodeNative_depends_on_parse',
 ]
 RULE = ('random call histories on one decoder state (decode of real-encoder packets of all modes/bandwidths/durations, '
         'bit-flipped / truncated / extended / random packets, synthetic framing of every code incl. self-delimited, NULL and '
@@ -42,8 +42,9 @@ TRUSTED = ['oracle contracts for silk_Decode / celt_decode_with_ec_dred / ec_dec
 UNPROVED = ['projection matrix multiply values (C10 proves matrix_short_saturates; here only its index ranges: msDecode_writes)',
             'int_ranges is a list of range lemmas for the expressions the C code forms, stated over the guaranteed operand ranges; '
             'the model itself computes with unbounded Int (no wrap32 instrumentation), and ec_tell < 2^30 is a hypothesis',
-            'decodeNative_depends_on_parse for the whole post-state / inner-call log of two runs on different byte strings '
-            '(only the return value / last_packet_duration: nativeRet_depends_on_parse)']
+            'decodeNative_depends_on_parse relates two runs whose DSP oracles agree up to the frame-offset shift (OracleShift); '
+            'that the real SILK / CELT decoders satisfy this (they read the frame bytes only through data+offset) is an oracle '
+            'assumption, not proved here']
 LEVEL_TEXT = ('proof of the control skeleton, partial for the property: for every state satisfying the decoder invariant (hence, by '
               'induction, after every history of decode / loss / FEC / reset / gain calls), every packet / NULL, len, frame_size, '
               'decode_fec, self_delimited and every oracle behaviour within the contracts, opus_decode_native returns exactly '
